@@ -96,8 +96,8 @@ def rt_reads_lit(grid, counts_num):
 
 
 for fn_name in ('raytracing', 'stochastic_raytracing'):
-    loop_invariant(target=VF + fn_name, loop=0, kind='indexed', modifies=['counts_num', 'counts_den'])(rt_outer)
-    loop_invariant(target=VF + fn_name, loop=1, kind='indexed', modifies=['counts_num', 'counts_den'],
+    loop_invariant(target=VF + fn_name, loop=0, kind='indexed', modifies=['counts_num', 'counts_den'], iter='rays')(rt_outer)
+    loop_invariant(target=VF + fn_name, loop=1, kind='indexed', modifies=['counts_num', 'counts_den'], iter='ray',
                    step={'reads-only-lit-cells': rt_reads_lit})(rt_inner)
 
 
@@ -113,8 +113,8 @@ def v_raytracing(grid, position, rng):
     ensures('rays-requested-for-this-view', lambda: not symbolic() or (
         ghost_calls(RAYS) == 1 and ghost_calls(RAYS1) == 0 and ghost_arg(RAYS, 0, 0) == position))
     protocol(grid, position, rng, g0)
-    ensures_locals('visible-iff-reached-by-a-lit-ray', lambda visibility, counts_num: forall_cells(
-        grid, lambda c: visibility[c.y, c.x] == (counts_num[c.y, c.x] >= 1)))
+    ensures_locals('visible-iff-reached-by-a-lit-ray', lambda counts_num: forall_cells(
+        grid, lambda c: result()[c.y, c.x] == (counts_num[c.y, c.x] >= 1)))
     ensures('deterministic-no-draw', lambda: draws(rng) == 0)
 
 
@@ -129,12 +129,12 @@ def v_stochastic_raytracing(grid, position, rng):
     ensures('total', lambda: returned())
     protocol(grid, position, rng, g0)
     # for every outcome of the generator:
-    ensures_locals('never-shows-a-cell-no-lit-ray-reaches', lambda visibility, counts_num: forall_cells(
-        grid, lambda c: implies(counts_num[c.y, c.x] == 0, lambda: not visibility[c.y, c.x])),
+    ensures_locals('never-shows-a-cell-no-lit-ray-reaches', lambda counts_num: forall_cells(
+        grid, lambda c: implies(counts_num[c.y, c.x] == 0, lambda: not result()[c.y, c.x])),
         native=lambda: forall_cells(grid, lambda c: implies(result()[c.y, c.x], lambda: raytracing(g0, position)[c.y, c.x])))
-    ensures_locals('always-shows-cells-every-ray-reaches-lit', lambda visibility, counts_num, counts_den: forall_cells(
+    ensures_locals('always-shows-cells-every-ray-reaches-lit', lambda counts_num, counts_den: forall_cells(
         grid, lambda c: implies(counts_den[c.y, c.x] > 0 and counts_num[c.y, c.x] == counts_den[c.y, c.x],
-                                lambda: visibility[c.y, c.x])))
+                                lambda: result()[c.y, c.x])))
     ensures('same-rays-as-the-deterministic-view', lambda: not symbolic() or (
         ghost_calls(RAYS) == 1 and ghost_calls(RAYS1) == 0 and ghost_arg(RAYS, 0, 0) == position))
     ensures('draws-only-from-the-passed-generator', lambda: draws(rng) == 1)
